@@ -31,6 +31,17 @@ def gen_deflate(tier, rng):
                 for chunk in (1, 31, 288, 289, 320, 4096, 32768, 32769):
                     if (chunk > n and chunk != 32768) or (chunk == 1 and n > 2000) or (tier == "quick" and (k + chunk) % 2): continue
                     add(api="deflate", inp=inp, level=level, wrap=k % 5, lbuf=[0, 1, 3][k % 3], mem=mem, tail_ai=chunk, tail_ao=[1 << 16, 100][k % 2], cap=200000, meta={"family": "chunked"}); k += 1
+    # one-shot compression: the input's last byte and the output's last byte directly before inaccessible pages
+    for cls, n in [("zeros", 8), ("zeros", 300), ("ff", 4096), ("ff", 9000), ("text", 700), ("random", 300), ("runs", 5000), ("records", 3000), ("empty", 0), ("zeros", 70000)]:
+        inp = igz.corpus(rng, cls, n)
+        for level in range(4):
+            for wrap in (0, 1, 3):
+                for extra in (0, 1, 7, 8, 9, 300):
+                    if tier == "quick" and (k + extra) % 3: k += 1; continue
+                    k += 1
+                    bound = n + 5 * max(1, (n + 65534) // 65535) + 18
+                    add(api="deflate_stateless", inp=inp, level=level, wrap=wrap, lbuf=[3, 0, 5][k % 3] if level == 1 else [3, 0][k % 2], calls=[[n, bound + extra, [0, 2][k % 2], 1]],
+                        meta={"family": "oneshot-guarded"})
     return scns
 
 def gen_inflate(tier, rng):
